@@ -34,6 +34,8 @@ fn size_u64(v: i64) -> u64 {
         -11 => 1u64 << 32,
         -12 => 0xFFFF_FFFF,
         -13 => (1u64 << 32) + 100, // V3 readers mask this to 100
+        -14 => 0xFFFF_FFFF_FFFF_FFC0, // the largest multiple of the mini sector length
+        -15 => 0x7FFF_FFFF_FFFF_FFC0,
         x if x >= 0 => x as u64,
         _ => 0x7FFF_FFFF_FFFF_FFFF,
     }
